@@ -107,6 +107,15 @@ CLAIMS = {
         '(message rendering incl. %.16g floats, time formatting, error isolation), and a sample runs through the real bread binary (exit status 0/3).',
    note=NOTE_COMMON + 'sanitizers as observers; operator new limited to 256 MiB in the line driver (bread stage unlimited); invalid-bool loads and multi-GB allocations for hostile size fields are recorded observations, not counted as violations (DESIGN.md).',
    design='4/C09', technique='Coq proofs on the reader/visitor model for the parts that are logic (bounds of entries, assertion-freedom of time formatting, collapse rule) + refutation witness; model-vs-code differential execution on hostile inputs under sanitizers'),
+ 'C07': dict(
+   text='Theorems (Coq, closed): C07_source_read_back / C07_writer_read_back / C07_clock_sync_read_back (every metadata field serialized by the writer side is recovered exactly by the reader, any trailing bytes ignored), '
+        'C07_event_read_back (an event is presented with the source registered under its id, the current writer properties, its clock and its argument bytes verbatim), C07_message_of_arithmetic_arguments (for EVERY format string and '
+        'every list of arithmetic arguments matching its {} count the message is the format with each {} replaced in order by the value text), C07_float_digits_nearest (the 16 digits printed are the exact binary value rounded half-to-even). '
+        'PARTIAL: the notation of composite arguments (containers, tuples, structs, enums, optionals, variants) and the chain through the real macros and session are not theorems here (they rest on C04/C06/C03/C11/C14/C17 and on execution): '
+        'generated C++ programs log through BINLOG_<SEV>_W/_WC and BINLOG_CREATE_SOURCE_AND_EVENT with random argument types, writers that come and go, consumes in between; printEvents of the current tree must print exactly the text the '
+        'model reader+renderer gives for the log the program denotes; an independent python rendering of the documented notation is compared with code and model on typed wire-level logs.',
+   note=NOTE_COMMON + 'tools/gen_log.py, gen_mser.py, gen_wire.py; python framing of entries; the programs are built with UBSan only so that allocator reuse of freed channels is observable; named-macro clocks (clockNow) are not compared.',
+   design='4/C07', technique='Coq round-trip and substitution proofs on the reader/renderer model + generated-program differential execution + independent reference rendering'),
 }
 REASON_NOT_BUILT = 'not built yet in this round: no theorem/correspondence for it is registered; not claimed at a lower level by another technique'
 m = {'version': 1, 'setup_cmd': './setup.sh',
